@@ -263,6 +263,9 @@ def wrapper_job(c):
         j[key] = c[key]
     j["sem"] = [[float("nan") if v is None else float(v) for v in row] for row in c["sem"]]
     j["act"] = [[float("nan") if v is None else float(v) for v in row] for row in c["act"]]
+    if c.get("earlier"):
+        j["earlier"] = [{k: ([[float("nan") if v is None else float(v) for v in row] for row in m] if m is not None else None)
+                         for k, m in e.items()} for e in c["earlier"]]
     return j
 
 
@@ -366,6 +369,20 @@ def gen_wrapper_cases(rng, n_cases):
                 key = "act" if which == "one_act_column" else "sem"
                 col = rng.randrange(len(c[key][0]))
                 c[key] = [[(v * sc if j == col else v) for j, v in enumerate(row)] for row in c[key]]
+    # history: the same array objects were correlated before with other contents and changed in place since (other
+    # values, a column that was constant / NaN then and is not now, and the other way round through the degenerate cases)
+    for k, c in enumerate(cases):
+        if k % 4 == 2:
+            e = {"sem": gen_matrix(rng, c["n"], c["n_out"]) if rng.random() < 0.7 else None,
+                 "act": gen_matrix(rng, c["n"], c["n_ev"]) if rng.random() < 0.7 else None}
+            if e["sem"] is not None and rng.random() < 0.4:
+                col = rng.randrange(c["n_out"])
+                for row in e["sem"]:
+                    row[col] = 1
+            if e["act"] is not None and rng.random() < 0.3:
+                e["act"][rng.randrange(c["n"])][rng.randrange(c["n_ev"])] = None
+            c["earlier"] = [e]
+            c["what"] = (c.get("what") or "") + " [same arrays correlated before with other contents]"
     # a perfectly correlated, an anti-correlated and an uncorrelated pair
     cases.append({"n": 4, "n_out": 3, "n_ev": 2, "sem": [[0, 3, 1], [1, 2, -1], [2, 1, -1], [3, 0, 1]],
                   "act": [[0, 1], [2, 1], [4, 0], [6, 0]], "allow_nan": False, "reference": True,
